@@ -192,7 +192,7 @@ func TestC02Edits(t *testing.T) {
 		stream.Close()
 		rdEnd := &mitm.End{In: stream, Out: mitm.NewStream()}
 		delivered, prefixOK, errored := 0, 1, 0
-		for i := 0; i < 3*K+4; i++ {
+		for i := 0; i < K+8; i++ {
 			got, err := reader.ReadMessage(rdEnd)
 			if err != nil {
 				errored = 1
@@ -212,6 +212,24 @@ func TestC02Edits(t *testing.T) {
 		sn++
 		d := []string{"c2s", "s2c"}[sn%2]
 		run(sn, es, sizeSets[sn%len(sizeSets)], sn%3 == 0, d)
+	}
+	// long streams across a key rotation (500 messages = 1000 encryptions):
+	// records of the previous key generation replayed at the same nonces
+	longSizes := make([]int, 505)
+	for i := range longSizes {
+		longSizes[i] = 1 + i%7
+	}
+	for _, es := range [][]edit{
+		{{E: "replay", I: 1001, J: 1}, {E: "replay", I: 1002, J: 2}},
+		{{E: "replay", I: 1003, J: 3}},
+		{{E: "drop", I: 1000}},
+		{{E: "swap", I: 1000}},
+		{},
+	} {
+		sn++
+		K = 505
+		run(sn, es, longSizes, sn%2 == 0, []string{"c2s", "s2c"}[sn%2])
+		K = 4
 	}
 	// every single-bit flip of every chunk of a short session (thorough: all
 	// bits of all chunks; quick: every bit of one header and one body, and a
